@@ -192,9 +192,21 @@ _T["C09"] = ("Theorems input_noninterference / stream_noninterference: two conte
 _T["C01"] = ("PARTIAL BY NATURE. Theorems (Props/C01.lean): every recogniser keeps its cursor and token extent inside its input (from the C13 theorems, block recogniser included); the unit detector always makes progress and never leaves its input, so the unit loop of SCPI_Parse and the scan loop of SCPI_Input terminate; SCPI_Parse never exhausts its step budget, never composes a header before the start of the buffer and modifies no byte outside the message; SCPI_Input keeps position < buffer length for every chunk history; an over-long chunk copies nothing; SCPI_ParamCopyText and the array readers never store beyond the caller's capacity. These are statements about the algorithm as modelled: a C-level out-of-bounds read caused by a broken check-then-read pair, signed overflow or libc reading past a token cannot be exhibited by the model; for those the evidence is testing: every correspondence domain runs under ASan+UBSan with exact-size heap objects, canaries, a watchdog and the guarded buffer-tail poisoning hook, in four build configurations.",
             "Lean kernel + standard axioms for the bounds/termination theorems; memory safety and undefined arithmetic of the C code itself are observed by sanitizers under the generators (testing)",
             "Lean 4 bounds and termination theorems over the model + sanitizer-instrumented differential correspondence")
+_T["C15"] = ("Theorems doubleToStr_bounded / dtostreCopy_bounded / numberToStr_bounded: for every buffer length (0 and 1 included), every NUL-free text the number formatter can hand over, every unit of the generated table and every special-number tag, the model of SCPI_FloatToStr / SCPI_DoubleToStr, the final copy of SCPI_dtostre and SCPI_NumberToStr (snprintf, strncpy, strncat by their C specifications, with the repaired bounds) writes only inside the caller's buffer, leaves it NUL-terminated whenever its length is at least 1, and returns the length of the stored text; table_names_are_c_strings for the generated unit / special-number tables. SCPI_ParamCopyText is covered by C05/C01 theorems (copy bounded by the capacity).",
+            "Lean kernel + standard axioms; translator for the unit and special-number tables; snprintf / strncpy / strncat / strnlen are modelled by their C specifications (trusted); model tied to utils.c / units.c by differential testing with exact-size heap buffers under ASan",
+            "Lean 4 theorems over a bounded-writer model + sanitizer-instrumented differential correspondence")
+_T["C16"] = ("PARTIAL: the value-closeness of the printf build rests on the C library (trusted, compared on every run against the exact rational value of the bit pattern by the judge Spec/Float.lean); for the library's own formatter the theorems assemble_value / assemble_zero / assemble_fits show that for every precision 1..15, every digit string and decimal exponent, the string assembly of SCPI_dtostre (fixed and exponent notation, stripping of trailing zeros, sign) denotes exactly 0.d1...dprec x 10^decpt and fits its scratch buffer; the digit generation (scpi_ecvt, C double arithmetic) is corresponded and judged, not proved, and its accumulated error beyond one unit in the last place is recorded as a known finding.",
+            "Lean kernel + standard axioms; digit generation of both builds is outside the model (IEEE-754 double arithmetic / glibc printf) and is judged on every run against exact rational arithmetic",
+            "Lean 4 theorems over the string-assembly model + exact-rational judge on the implementation's output")
+_T["C07"] = ("Theorems unsigned_roundtrip / signed_roundtrip / narrow_roundtrip (every value of 8..64 bits, bases 2, 8, 10, 16: the emitted text lexes as one token of the right kind and the matching reader returns the value), text_roundtrip (any 7-bit content with both quote characters: one string token, SCPI_ParamCopyText returns the content), block_roundtrip (any bytes, any length below 10^9), bool_roundtrip, float_text_accepted (every text of the %g output language is accepted whole as one decimal token that strtod converts entirely). Closeness of float / double values rests on printf/strtod of the C library and is compared on every run (float: exact; double: relative 1e-14, as %.15lg cannot carry 17 digits).",
+            "Lean kernel + standard axioms; writer models from C14/C17/C18, lexer model from C13, reader models from the context model; libc strto* as specified in Model/Prim.lean; tied to the code by feeding each produced response back through the real parser",
+            "Lean 4 round-trip theorems (writer . lexer . reader = id) + differential correspondence on the real round trip")
+_T["C04"] = ("PARTIAL with a recorded finding. Proved: literal_has_value, integer_exact_signed / integer_exact_unsigned (every in-range decimal integer literal decodes exactly in all four widths), nondecimal_exact (#H/#Q/#B up to the type width), conversion_sees_literal_partial (a decimal literal WITHOUT inner white space, not the single digit 0 followed by x/X, is converted whole by strtod whatever follows it), unit_names_distinct, unit_names_lex_whole, translateUnit_finds, unit_prefix_rule (every row of the generated unit table has multiplier 1, is explained by an SI prefix of table 7-2, or is one of nine listed rows), special_mnemonics. Disproved and kept visible: conversion_counterexample ('1 E3' lexes as one literal of value 1000 but converts as 1) - genuine defect, recorded as known finding C04.whitespace_in_literal; hexfloat_counterexample ('0x1': unobservable, the suffix is always rejected, unit_names_no_x). Correct rounding of strtod is trusted (C library) and judged on every run against exact rational arithmetic.",
+            "Lean kernel + standard axioms; translator for the unit table (multipliers as exact rationals) and special numbers; strtod's rounding is trusted libc and judged per run with Spec/Float.lean; context model tied to parser.c/units.c/utils.c by scripted differential testing",
+            "Lean 4 theorems over reader models and generated unit table + exact-rational judge + differential correspondence")
 for _k, (_a, _b, _c) in _T.items():
     PROPS[_k]["level_text"], PROPS[_k]["level_note"], PROPS[_k]["technique"] = _a, _b, _c
 
 # properties whose theorem module is not complete yet are not claimed
-for _k in ("C08", "C04", "C15", "C16", "C07"):  # unclaimed
+for _k in ("C08",):  # unclaimed
     PROPS[_k]["unclaimed"] = True
